@@ -1,4 +1,5 @@
 use crate::dist::Toolchain;
+use crate::lru_disk_cache::Error as LruError;
 use crate::lru_disk_cache::Result as LruResult;
 use crate::lru_disk_cache::{LruDiskCache, ReadSeek};
 use anyhow::{anyhow, Result};
@@ -459,6 +460,13 @@ pub struct TcCache {
     inner: LruDiskCache,
 }
 
+/// Toolchain ids come from clients. They are hex digests of the archive; anything else must
+/// never be turned into a path below the cache directory (`make_lru_key_path` slices the id
+/// and joins it as it is).
+fn valid_archive_id(id: &str) -> bool {
+    id.len() >= 2 && id.bytes().all(|b| b.is_ascii_hexdigit())
+}
+
 impl TcCache {
     pub fn new(cache_dir: &Path, cache_size: u64) -> Result<TcCache> {
         trace!("Using TcCache({:?}, {})", cache_dir, cache_size);
@@ -468,7 +476,8 @@ impl TcCache {
     }
 
     pub fn contains_toolchain(&self, tc: &Toolchain) -> bool {
-        self.inner.contains_key(make_lru_key_path(&tc.archive_id))
+        valid_archive_id(&tc.archive_id)
+            && self.inner.contains_key(make_lru_key_path(&tc.archive_id))
     }
 
     pub fn insert_with<F: FnOnce(fs::File) -> io::Result<()>>(
@@ -476,6 +485,9 @@ impl TcCache {
         tc: &Toolchain,
         with: F,
     ) -> Result<()> {
+        if !valid_archive_id(&tc.archive_id) {
+            return Err(anyhow!("invalid toolchain id {:?}", tc.archive_id));
+        }
         self.inner
             .insert_with(make_lru_key_path(&tc.archive_id), with)?;
         let verified_archive_id = file_key(self.get(tc)?)?;
@@ -490,10 +502,16 @@ impl TcCache {
     }
 
     pub fn get_file(&mut self, tc: &Toolchain) -> LruResult<fs::File> {
+        if !valid_archive_id(&tc.archive_id) {
+            return Err(LruError::FileNotInCache);
+        }
         self.inner.get_file(make_lru_key_path(&tc.archive_id))
     }
 
     pub fn get(&mut self, tc: &Toolchain) -> LruResult<Box<dyn ReadSeek>> {
+        if !valid_archive_id(&tc.archive_id) {
+            return Err(LruError::FileNotInCache);
+        }
         self.inner.get(make_lru_key_path(&tc.archive_id))
     }
 
@@ -506,6 +524,9 @@ impl TcCache {
     }
 
     pub fn remove(&mut self, tc: &Toolchain) -> LruResult<()> {
+        if !valid_archive_id(&tc.archive_id) {
+            return Err(LruError::FileNotInCache);
+        }
         self.inner.remove(make_lru_key_path(&tc.archive_id))
     }
 
